@@ -343,7 +343,13 @@ func Run(opt Options) int {
 				b, _ := os.ReadFile(filepath.Join(replayRoot, c.file))
 				os.WriteFile(filepath.Join(dir, c.file), b, 0o644)
 			}
-			res, out, err := NativeReplay(opt.Repo, opt.Verif, hp.dir, hp.name, hp.files, hp.funcs, dir, 5*time.Minute)
+			wantRace := false
+			for _, c := range cs {
+				if c.v.Kind == "race" {
+					wantRace = true
+				}
+			}
+			res, out, err := NativeReplay(opt.Repo, opt.Verif, hp.dir, hp.name, hp.files, hp.funcs, dir, 5*time.Minute, wantRace)
 			os.RemoveAll(dir)
 			if err != nil || len(res) < len(cs) {
 				fmt.Fprintf(os.Stderr, "native replay problem: %v (%d of %d results)\n%s\n", err, len(res), len(cs), tail(out, 4000))
@@ -365,6 +371,11 @@ func Run(opt Options) int {
 				case "panic":
 					// a panic inside the harness goroutine, or one that killed the test process
 					if r.Status == "panic" || r.Status == "crashed" {
+						confirmed[c.file] = true
+					}
+				case "race":
+					// confirmed by the Go race detector on the natively compiled harness
+					if r.Race {
 						confirmed[c.file] = true
 					}
 				case "deadlock":
@@ -549,7 +560,7 @@ func ReplayOne(opt Options, path string) int {
 			dir, _ := os.MkdirTemp("", "verif-cex-")
 			defer os.RemoveAll(dir)
 			os.WriteFile(filepath.Join(dir, filepath.Base(path)), b, 0o644)
-			res, out, err := NativeReplay(opt.Repo, opt.Verif, hp.dir, hp.name, hp.files, hp.funcs, dir, 5*time.Minute)
+			res, out, err := NativeReplay(opt.Repo, opt.Verif, hp.dir, hp.name, hp.files, hp.funcs, dir, 5*time.Minute, rf.Kind == "race")
 			if opt.Verbose || err != nil {
 				fmt.Println(tail(out, 8000))
 			}
